@@ -1,20 +1,15 @@
 import Driver.Proto
 import XsdataModel.Py.TblEnv
 import XsdataModel.Conv.Factory
+import XsdataModel.Conv.TblCEnv
 open Lean Proto Py Xs.Conv Xs.Dates
 
 namespace OpsConv
 
-def tblIsAlphaNA (c : Char) : Bool :=
-  let n := c.toNat
-  Tables.alphaRangesNA.any (fun r => r.1 ≤ n && n ≤ r.2)
-
 /-- environment for one request: Unicode tables + the `repr(float(s))` answers
 the harness computed for the strings of this request -/
-def mkEnv (freprs : Json) : CEnv where
-  toEnv := tblEnv
-  isAlphaNA := tblIsAlphaNA
-  floatRepr s :=
+def mkEnv (freprs : Json) : CEnv :=
+  tblCEnv fun s =>
     match freprs.getObjVal? (String.ofList s) with
     | .ok (.str r) => r.toList
     | _ => "?missing-float-repr".toList
